@@ -47,7 +47,10 @@ Inductive opsyn :=
 | SSysOp (fop1 fcrm fop2 crn : Z)              (* AT/DC/IC/TLBI operation as AsmJit's 14-bit id op1:CRn:CRm:op2 (CRn implied by the instruction) *)
 | SGpPair (x : bool) (f : Z)                   (* CASP register pair: <Rs>, <R(s+1)> with s even, 0..30 (the partner of R30 is ZR); field = s *)
 | SImmRsub (f w c lo hi : Z)                   (* #imm with lo <= imm <= hi, field = c - imm (fixed-point conversions: scale = 64 - fbits) *)
-| SFpImm (fabc fdefgh : Z).                    (* FMOV #fimm: a floating-point immediate with an 8-bit encoding abc:defgh *)
+| SFpImm (fabc fdefgh : Z)                     (* FMOV #fimm: a floating-point immediate with an 8-bit encoding abc:defgh *)
+| SVecListElem (n : nat) (et f fidx widx lanes : Z)
+| SImmAff (f w base step : Z).                 (* #imm = base + step * field, 0 <= field < 2^w (FCADD rotation 90 / 270) *)
+(* SVecListElem: { Vt.<T>, Vt+1.<T>, ... }[idx]: n consecutive registers (mod 32), one lane; fields Vt, idx *)
 (* SFpImm: the operand is an Imm holding a double (modelled as OImm p bits with p >= 256, bits = its IEEE-754 binary64 pattern) or a
    32-bit integer (p < 256), which the assembler converts to double first; accepted iff the value is one of the 256 "imm8" numbers *)
 (* SVShift: SIMD shift by immediate: immh:immb = esize + n (left, 0 <= n < esize) or 2*esize - n (right, 1 <= n <= esize) *)
@@ -74,12 +77,12 @@ Definition addimm_bind (fimm fn v sh : Z) : option env :=
   else None.
 
 (* n consecutive registers starting at id (modulo 32), all of view rt / arrangement et, no lane *)
-Fixpoint veclist (n : nat) (rt et id : Z) (ops : list operand) : option (list operand) :=
+Fixpoint veclist (n : nat) (rt et ei id : Z) (ops : list operand) : option (list operand) :=
   match n with
   | O => Some ops
   | S k => match ops with
-           | OVec rt' et' ei id' :: r =>
-             if (rt' =? rt) && (et' =? et) && (ei =? -1) && (id' =? id) then veclist k rt et ((id + 1) mod 32) r else None
+           | OVec rt' et' ei' id' :: r =>
+             if (rt' =? rt) && (et' =? et) && (ei' =? ei) && (id' =? id) then veclist k rt et ei ((id + 1) mod 32) r else None
            | _ => None
            end
   end.
@@ -181,7 +184,10 @@ Definition bind1 (s : opsyn) (ops : list operand) : option (env * list operand) 
   | SVecElem et f w fidx widx lanes, OVec rt' et' ei id :: r =>
       if (rt' =? 4) && (et' =? et) && (0 <=? ei) && (ei <? lanes) && fits_u id w then Some ([(f, id); (fidx, ei)], r) else None
   | SVecList n rt et f, OVec _ _ _ id :: _ =>
-      if fits_u id 5 then match veclist n rt et id ops with Some r => Some ([(f, id)], r) | None => None end else None
+      if fits_u id 5 then match veclist n rt et (-1) id ops with Some r => Some ([(f, id)], r) | None => None end else None
+  | SVecListElem n et f fidx widx lanes, OVec _ _ ei id :: _ =>
+      if fits_u id 5 && (0 <=? ei) && (ei <? lanes)
+      then match veclist n 4 et ei id ops with Some r => Some ([(f, id); (fidx, ei)], r) | None => None end else None
   | SMemPostReg frn frm, OMem b (Some (xi, i)) sop sh off m :: r =>
       if (0 <=? b) && (b <=? 31) && xi && (0 <=? i) && (i <=? 30) && (sop =? 0) && (sh =? 0) && (off =? 0) && (m =? 2)
       then Some ([(frn, b); (frm, i)], r) else None
@@ -192,6 +198,8 @@ Definition bind1 (s : opsyn) (ops : list operand) : option (env * list operand) 
   | SGpPair x f, OGp x1 id1 :: OGp x2 id2 :: r =>
       if Bool.eqb x x1 && Bool.eqb x x2 && (0 <=? id1) && (id1 <=? 30) && Z.even id1 && (id2 =? (if id1 =? 30 then 63 else id1 + 1))
       then Some ([(f, id1)], r) else None
+  | SImmAff f w base step, OImm _ v :: r =>
+      if ((v - base) mod step =? 0) && fits_u ((v - base) / step) w then Some ([(f, (v - base) / step)], r) else None
   | SImmRsub f w c lo hi, OImm _ v :: r => if (lo <=? v) && (v <=? hi) then Some ([(f, c - v)], r) else None
   | SFpImm fabc fdefgh, OImm p v :: r =>
       let b := fimm_bits p v in
@@ -269,12 +277,12 @@ Definition syn_inv (s : opsyn) : bool :=
   | SVec _ _ _ _ | SVecElem _ _ _ _ _ _
   | SGpDup _ _ _ _ | SImmLt _ _ _ | SSysReg _ | SImmConst _ | SMemPostImm _ _ | SMemPostReg _ _ | SMemIdx _ _ _ _ _ | SMemPair _ _ _ _ _ _ _
   | SVShift _ _ _ _ | SMovW _ _ _ | SBitfield _ _ _ _ | SAddImm _ _ | SExtReg _ _ _ _ | SLogImm _ _ | SVecList _ _ _ _ | SGpPair _ _ | SSysOp _ _ _ _
-  | SImmRsub _ _ _ _ _ | SFpImm _ _ => true
+  | SImmRsub _ _ _ _ _ | SFpImm _ _ | SVecListElem _ _ _ _ _ _ | SImmAff _ _ _ _ => true
   end.
 
 (* the n registers of a list starting at id *)
-Fixpoint veclist_ops (n : nat) (rt et id : Z) : list operand :=
-  match n with O => [] | S k => OVec rt et (-1) id :: veclist_ops k rt et ((id + 1) mod 32) end.
+Fixpoint veclist_ops (n : nat) (rt et ei id : Z) : list operand :=
+  match n with O => [] | S k => OVec rt et ei id :: veclist_ops k rt et ei ((id + 1) mod 32) end.
 
 Definition unbind1 (s : opsyn) (g : Z -> Z) : list operand :=
   match s with
@@ -318,7 +326,9 @@ Definition unbind1 (s : opsyn) (g : Z -> Z) : list operand :=
       | Some v => [OImm 0 v]
       | None => []
       end
-  | SVecList n rt et f => veclist_ops n rt et (g f)
+  | SVecList n rt et f => veclist_ops n rt et (-1) (g f)
+  | SVecListElem n et f fidx _ _ => veclist_ops n 4 et (g fidx) (g f)
+  | SImmAff f _ base step => [OImm 0 (base + g f * step)]
   | SGpPair x f => [OGp x (g f); OGp x (if g f =? 30 then 63 else g f + 1)]
   | SSysOp fop1 fcrm fop2 crn => [OImm 0 (g fop1 * 2048 + crn * 128 + g fcrm * 8 + g fop2)]
   | SImmRsub f _ c _ _ => [OImm 0 (c - g f)]
@@ -337,7 +347,7 @@ Definition canon1 (s : opsyn) (ops : list operand) : option (list operand * list
   | SShift _ _ _ _, [] => Some ([OImm 0 0], [])
   | SShift _ _ _ _, o :: r => Some ([o], r)
   | (SGpDup _ _ _ _ | SMemPostReg _ _ | SMemIdx _ _ _ _ _), o :: r => Some ([o], r)
-  | (SImmLt _ _ _ | SSysReg _ | SImmConst _ | SImmRsub _ _ _ _ _), OImm _ v :: r => Some ([OImm 0 v], r)
+  | (SImmLt _ _ _ | SSysReg _ | SImmConst _ | SImmRsub _ _ _ _ _ | SImmAff _ _ _ _), OImm _ v :: r => Some ([OImm 0 v], r)
   | SMemPostImm _ _, OMem b None _ _ off m :: r => Some ([OMem b None 0 0 off m], r)
   | SMemPair _ _ _ _ _ _ nf, OMem b None _ _ off m :: r => Some ([OMem b None 0 0 off (if nf && (off =? 0) then 0 else m)], r)
   | SVShift _ _ _ _, OImm _ n :: r => Some ([OImm 0 n], r)
@@ -361,7 +371,9 @@ Definition canon1 (s : opsyn) (ops : list operand) : option (list operand * list
   (* bitmask immediate: the unsigned value of the register width *)
   | SLogImm x _, OImm _ v :: r => Some ([OImm 0 (v mod 2 ^ (if x then 64 else 32))], r)
   | SVecList n rt et _, OVec _ _ _ id :: _ =>
-      match veclist n rt et id ops with Some r => Some (veclist_ops n rt et id, r) | None => None end
+      match veclist n rt et (-1) id ops with Some r => Some (veclist_ops n rt et (-1) id, r) | None => None end
+  | SVecListElem n et _ _ _ _, OVec _ _ ei id :: _ =>
+      match veclist n 4 et ei id ops with Some r => Some (veclist_ops n 4 et ei id, r) | None => None end
   | SGpPair _ _, o1 :: o2 :: r => Some ([o1; o2], r)
   | SSysOp _ _ _ _, OImm _ v :: r => Some ([OImm 0 v], r)
   | SFpImm _ _, OImm p v :: r => Some ([OImm 256 (fimm_bits p v)], r)      (* the double the assembler works with *)
@@ -427,6 +439,8 @@ Definition syn_fields (s : opsyn) : list (Z * Z) :=
   | SSysOp fop1 fcrm fop2 _ => [(fop1, 3); (fcrm, 4); (fop2, 3)]
   | SImmRsub f w _ _ _ => [(f, w)]
   | SFpImm fabc fdefgh => [(fabc, 3); (fdefgh, 5)]
+  | SVecListElem _ _ f fidx widx _ => [(f, 5); (fidx, widx)]
+  | SImmAff f w _ _ => [(f, w)]
   end.
 
 Definition syn_wf (s : opsyn) : bool :=
@@ -444,6 +458,8 @@ Definition syn_wf (s : opsyn) : bool :=
   | SImmRsub _ w c lo hi => (0 <=? w) && (w <=? 32) && (0 <=? c - hi) && (c - lo <? 2 ^ w)
   | SVShift _ esize _ _ => (esize =? 8) || (esize =? 16) || (esize =? 32) || (esize =? 64)
   | SVec _ _ _ w => (0 <=? w) && (w <=? 5)
+  | SImmAff _ w _ step => (0 <=? w) && (w <=? 32) && (1 <=? step)
+  | SVecListElem _ _ _ _ widx lanes => (0 <=? widx) && (widx <=? 4) && (0 <=? lanes) && (lanes <=? 2 ^ widx)
   | SVecElem _ _ w _ widx lanes => (0 <=? w) && (w <=? 5) && (0 <=? widx) && (widx <=? 4) && (0 <=? lanes) && (lanes <=? 2 ^ widx)
   | _ => true
   end.
@@ -483,6 +499,14 @@ Definition overlap_tight (ov : list (Z * Z * Z)) (sigs : list (Z * Z * Z)) : boo
 
 (* ---- opcode constants of the assembler's EncodingData tables vs the database rows ---- *)
 (* entry = (instruction id, opcode word of the table row, class-variable bits, ids of the database rows of that instruction) *)
+(* opcode LITERALS written in the encoder's source (classes without a table constant): every database row of the instruction agrees
+   with at least one of the literals of its encoding case *)
+Definition lit_entry_ok (db : list row) (e : Z * list Z * Z * list Z) : bool :=
+  let '(_, ws, var, rids) := e in
+  forallb (fun rid => match find (fun r => r_id r =? rid) db with
+                      | Some r => existsb (fun w => tword_agrees (r_tmpl r) w var) ws
+                      | None => false
+                      end) rids.
 Definition table_entry_ok (db : list row) (e : Z * Z * Z * list Z) : bool :=
   let '(_, w, var, rids) := e in
   forallb (fun rid => match find (fun r => r_id r =? rid) db with
